@@ -11,17 +11,7 @@ use rand::Rng;
 use rtcm_rs::prelude::*;
 use serde_json::{json, Value as J};
 
-fn sig_of(v: &V) -> (i64, i64) {
-    match v {
-        V::TupleStruct(_, xs) if xs.len() == 2 => {
-            let b = xs[0].as_i128().unwrap_or(-1) as i64;
-            let a = if let V::Char(c) = xs[1] { c as i64 } else { -1 };
-            (b, a)
-        }
-        V::Newtype(_, x) => sig_of(x),
-        _ => (-1, -1),
-    }
-}
+use crate::special_msm::sig_of;
 
 /// key projection of every list of structs in a message: [path, [[sat, band, attr], ...]]
 pub fn list_keys(v: &V) -> J {
